@@ -30,7 +30,7 @@ P = {
     "classify_vec": _cls,
     "required_classes": ["reorder/ok/identity", "reorder/ok/back", "reorder/ok/captured", "reorder/refuse", "reorder/refuse/unknown-ns",
                          "build/ok/none", "build/ok/named", "build/ok/unnamed", "build/unknown-version/none", "build/holes/named", "build/unknown-to-calamus/none", "build/nesting-depth/none"],
-    "level_text": "(Every vector of the bounded model is replayed twice, the second time with the entries of every mapping set inserted in the opposite order, and every second recorded case is built that way: the answers may not depend on insertion order.) Mappings::reorder is specified operationally (permute every name row, translate member descriptors with the class table old-first -> new-first, rebuild every map through add_child: missing first name or duplicate key is an error) and declaratively on flattened rows (the rows of the result are exactly the permuted rows of the input, none merged or lost, result well keyed; defined iff every class, field and method has a name in the new first namespace and no two siblings collide under their new keys; identity permutation changes nothing; reordering back returns the original unless an unmapped class name in a descriptor is captured). TLC checks the law for every permutation of three (thorough: four) namespaces over sets with absent names, colliding second names, descriptors mentioning mapped, array, unmapped and capturable classes, and sibling fields that collide only after translation; every case is replayed through Mappings::reorder (there and back); random larger sets run by the real code are judged by TLC with the declarative statement.",
+    "level_text": "(Every vector of the bounded model is replayed twice, the second time with the entries of every mapping set inserted in the opposite order, and every second recorded case is built that way: the answers may not depend on insertion order.) Mappings::reorder is specified operationally (permute every name row, translate member descriptors with the class table old-first -> new-first, rebuild every map through add_child: missing first name or duplicate key is an error) and declaratively on flattened rows (the rows of the result are exactly the permuted rows of the input, none merged or lost, result well keyed; defined iff every class, field and method has a name in the new first namespace and no two siblings collide under their new keys; identity permutation changes nothing; reordering back returns the original unless an unmapped class name in a descriptor is captured). TLC checks the law for every permutation of three (thorough: four) namespaces over sets with absent names, colliding second names, descriptors mentioning mapped, array, unmapped and capturable classes, and sibling fields that collide only after translation; every case is replayed through Mappings::reorder (there and back); random larger sets run by the real code are judged by TLC with the declarative statement. A family of mapped classes whose names have characters of more than one byte (inside the name and at its end) occurs in field and method descriptors.",
     "level_note": "Trusted: TLC, projection Mappings <-> abstract tree. The order argument is always a list of N names (the API takes an array); lists that are not permutations are judged only for unknown names.",
     "assumptions": ["TLC/SANY/CommunityModules", "harness projection quill Mappings <-> abstract tree (proj_quill.rs)"],
 }
